@@ -29,6 +29,7 @@ func TestC17(t *testing.T) {
 			p.PEvidence, p.PAbsent = 2, 2
 			p.VaryGas = true
 			p.BlockGasBoundary = true
+			p.LiveInject = true
 			return p
 		},
 		compare: func(c *Case, a *AppState, b *Block, br *BlockResult) {
@@ -75,6 +76,10 @@ func TestC17(t *testing.T) {
 				defer func() { tVM += time.Since(tv) }()
 				if c.Sim.H >= 1 {
 					if generating {
+						// pending mempool transactions of the accounts the read-only calls may look at
+						for i, n := 0, unif(gs.t, 3, "nPending"); i < n && len(gs.fresh) > 0 && len(c.W.Contracts) > 0; i++ {
+							b.Inject = append(b.Inject, Injected{Pos: -1, Kind: "check", Tx: pick(gs.t, gs.fresh, "pendingTx")})
+						}
 						for i, n := 0, unif(gs.t, 3, "nVmCalls"); i < n && len(c.W.Contracts) > 0; i++ {
 							to := unhx(pick(gs.t, sortedKeys(c.W.Contracts), "vmTo"))
 							from := pick(gs.t, gs.all, "vmFrom").Addr
@@ -87,6 +92,12 @@ func TestC17(t *testing.T) {
 						}
 					}
 					for _, inj := range b.Inject {
+						if inj.Pos == -1 && inj.Kind == "check" {
+							if r, perr := c.Sim.CheckTx(inj.Tx); perr == nil && r.Code == 0 {
+								c.W.Feat["vm_call_with_pending_mempool_tx"]++
+							}
+							continue
+						}
 						if inj.Pos != -1 || inj.Path != "vm_call" || len(inj.Data) < 40 {
 							continue
 						}
